@@ -274,22 +274,26 @@ UNITS += [
 
 UNITS += [
     Unit(name="merge_nodes_winner", file=TR, kind="block", within="pub(crate) fn merge_nodes(",
-         anchor="let mut node = nodes.into_iter().max_by(|n1, n2| cmp(n1, n2)).unwrap();", block_end="@fn_end",
-         block_sig="fn merge_nodes_winner(nodes: Vec<MNode>, trees: Vec<TreeId>, summary: &mut SummaryM) -> (r: RusticResult<MNode>)",
+         anchor="let trees: Vec<_> = nodes", block_end="@fn_end",
+         block_sig="fn merge_nodes_winner(nodes: Vec<MNode>, summary: &mut SummaryM) -> (r: RusticResult<MNode>)",
          block_tail="",
-         functions=["blob::tree::merge_nodes (after the collection of the sub-directories: winner of the group, its subtree replaced by the merge)"],
+         functions=["blob::tree::merge_nodes (whole body: sub-directories of the group, winner of the group, its subtree replaced by the merge)"],
          rewrites=[
+             Rw(r"let trees: Vec<_> = nodes\s*\.iter\(\)\s*\.filter\(\|node\| node\.is_dir\(\)\)\s*\.map\(\|node\| node\.subtree\.unwrap\(\)\)\s*\.collect\(\);", "let trees = vsubtrees_of_dirs(&nodes);" + "\n" * 4, regex=True,
+                why="iterator filter/map/collect with these closure literals -> stub: the sub-directories of all directory entries"),
              Rw("nodes.into_iter().max_by(|n1, n2| cmp(n1, n2)).unwrap()", "vmax_by_cmp(nodes)", why="Iterator::max_by with the caller's ordering -> stub: one of the nodes"),
-             Rw("merge_trees(be, index, &trees, cmp, save, summary)?", "vmerge_subtrees(&trees, summary)?", why="recursion into the sub-directories -> stub"),
+             Rw("merge_trees(be, index, &trees, cmp, save, summary)?", "vmerge_subtrees(&trees, summary, Ghost(group))?", why="recursion into the sub-directories -> effectful stub: PRECONDITION 'all sub-directories of the group'"),
          ],
          contract="""
     requires nodes@.len() > 0, old(summary).files_unmodified < u64::MAX, old(summary).total_files_processed < u64::MAX,
         forall|i: int| 0 <= i < nodes@.len() ==> old(summary).total_bytes_processed + (#[trigger] nodes@[i]).meta.size <= u64::MAX,
+        forall|i: int| 0 <= i < nodes@.len() && (#[trigger] nodes@[i]).dir ==> nodes@[i].subtree is Some,   // ASSUMED of stored trees
     ensures
         // the merged entry is one of the conflicting entries; only a directory's subtree is replaced (by the merge of the sub-directories)
         /*@winner_is_one_of_the_group*/ r matches Ok(n) ==> exists|i: int| 0 <= i < nodes@.len() && n.name == (#[trigger] nodes@[i]).name && n.meta == nodes@[i].meta && n.dir == nodes@[i].dir
             && (!n.dir ==> n == nodes@[i]),
-"""),
+""",
+         hints=[("before", "let trees", "    let ghost group = nodes@;")]),
 ]
 
 KANI = []
